@@ -3,10 +3,12 @@
 package connectconformance
 
 import (
+	"bytes"
 	"context"
 	"errors"
 	"fmt"
 	"io"
+	"net/http"
 	"os"
 	"path/filepath"
 	"strings"
@@ -25,6 +27,7 @@ func init() {
 	verifKinds["c04.results"] = verifC04Results
 	verifKinds["c04.flow"] = verifC04Flow
 	verifKinds["c04.run"] = verifC04Run
+	verifKinds["c04.peer"] = verifC04Peer
 }
 
 // c04Printer records every formatted message (one element per Printf call).
@@ -566,6 +569,9 @@ func TestVerifC04Child(t *testing.T) {
 			exitCode = a
 		}
 	}
+	if role == "peerclient" {
+		c04PeerClient(string(data))
+	}
 	switch role {
 	case "server":
 		var req conformancev1.ServerCompatRequest
@@ -594,4 +600,317 @@ func TestVerifC04Child(t *testing.T) {
 		}
 	}
 	os.Exit(3)
+}
+
+// ---------------------------------------------------------------------------
+// c04.peer: the real Run() in CLIENT mode: the client under test is this test
+// binary re-executed (role peerclient), the servers are the runner's own in-process
+// reference servers, started by run() through runInProcess with the pipes of
+// process.go.  The client reports whatever the script says (so its result may match
+// the expectation) and separately puts a request on the wire that is as the case
+// demands, or differs in a way only the server can see (codec, a second request,
+// compression header).  Config: HTTP/1.1, Connect and gRPC-Web, proto, identity.
+// Batches (the order run() uses with Verbose): reference server x {B0 = Connect,
+// B1 = gRPC-Web}, then the gRPC reference server x {B1 under marked names}.
+// ---------------------------------------------------------------------------
+
+const c04GRPCServerMarked = "/(grpc server impl)/"
+
+func verifC04Peer(args []vsx) vsx {
+	bad := vL(vS("bad-case"))
+	if len(args) != 4 {
+		return bad
+	}
+	kf, kfl := args[0].strs(), args[1].strs()
+	type pcase struct {
+		name          string
+		reply, defect int64
+	}
+	type pbatch struct {
+		ref   bool
+		suite string
+		cases []pcase
+	}
+	var batches []pbatch
+	known := map[string]bool{}
+	for _, b := range args[2].l {
+		pb := pbatch{ref: b.l[0].i != 0}
+		for _, c := range b.l[1].l {
+			pc := pcase{name: c.l[0].str(), reply: c.l[1].i, defect: c.l[2].i}
+			if pc.reply < 0 || pc.reply > 3 || pc.defect < 0 || pc.defect > 3 || known[pc.name] {
+				return bad
+			}
+			known[pc.name] = true
+			i := strings.Index(pc.name, "/")
+			if i < 0 {
+				return bad
+			}
+			if pb.suite == "" {
+				pb.suite = pc.name[:i]
+			} else if pb.suite != pc.name[:i] {
+				return bad
+			}
+			pb.cases = append(pb.cases, pc)
+		}
+		if len(pb.cases) == 0 {
+			return bad
+		}
+		batches = append(batches, pb)
+	}
+	// shape: [ref B0]? [ref B1 [grpc B1]]?  (at least one)
+	var refB0, refB1, grpcB1 *pbatch
+	idx := 0
+	if idx < len(batches) && batches[idx].ref && batches[idx].suite == "B0" {
+		refB0 = &batches[idx]
+		idx++
+	}
+	if idx < len(batches) && batches[idx].ref && batches[idx].suite == "B1" {
+		refB1 = &batches[idx]
+		idx++
+		if idx < len(batches) && !batches[idx].ref && batches[idx].suite == "B1" {
+			grpcB1 = &batches[idx]
+			idx++
+		}
+	}
+	if idx != len(batches) || len(batches) == 0 || (refB1 != nil) != (grpcB1 != nil) {
+		return bad
+	}
+	simple := func(pb *pbatch, marked bool) ([]string, bool) {
+		var out []string
+		for _, c := range pb.cases {
+			rest := strings.TrimPrefix(c.name, pb.suite+"/")
+			if marked {
+				if !strings.HasPrefix("/"+rest, c04GRPCServerMarked) {
+					return nil, false
+				}
+				rest = strings.TrimPrefix("/"+rest, c04GRPCServerMarked)
+			}
+			if rest == "" || strings.ContainsAny(rest, "/ :*()") {
+				return nil, false
+			}
+			out = append(out, rest)
+		}
+		return out, true
+	}
+	mark := func(n string) int {
+		for _, k := range kf {
+			if k == n {
+				return 1
+			}
+		}
+		for _, k := range kfl {
+			if k == n {
+				return 2
+			}
+		}
+		return 0
+	}
+	for _, n := range append(append([]string{}, kf...), kfl...) {
+		if !known[n] {
+			return bad
+		}
+	}
+	if refB1 != nil {
+		a, ok1 := simple(refB1, false)
+		b, ok2 := simple(grpcB1, true)
+		if !ok1 || !ok2 || len(a) != len(b) {
+			return bad
+		}
+		for i := range a {
+			// the same template under both servers, and (patterns are <suite>/**/<case>) marked alike
+			if a[i] != b[i] || mark(refB1.cases[i].name) != mark(grpcB1.cases[i].name) {
+				return bad
+			}
+		}
+	}
+	dir, err := os.MkdirTemp("", "verif-c04p-")
+	if err != nil {
+		panic(err)
+	}
+	defer os.RemoveAll(dir)
+	var script strings.Builder
+	var files []string
+	for _, pb := range []*pbatch{refB0, refB1} {
+		if pb == nil {
+			continue
+		}
+		names, ok := simple(pb, false)
+		if !ok {
+			return bad
+		}
+		protocol := conformancev1.Protocol_PROTOCOL_CONNECT
+		if pb.suite == "B1" {
+			protocol = conformancev1.Protocol_PROTOCOL_GRPC_WEB
+		}
+		suite := &conformancev1.TestSuite{
+			Name:                 pb.suite,
+			RelevantProtocols:    []conformancev1.Protocol{protocol},
+			RelevantHttpVersions: []conformancev1.HTTPVersion{conformancev1.HTTPVersion_HTTP_VERSION_1},
+			RelevantCodecs:       []conformancev1.Codec{conformancev1.Codec_CODEC_PROTO},
+			RelevantCompressions: []conformancev1.Compression{conformancev1.Compression_COMPRESSION_IDENTITY},
+		}
+		for _, n := range names {
+			suite.TestCases = append(suite.TestCases, c04Case(n))
+		}
+		data, err := protojson.Marshal(suite)
+		if err != nil {
+			panic(err)
+		}
+		file := filepath.Join(dir, pb.suite+".yaml")
+		if err := os.WriteFile(file, data, 0o600); err != nil {
+			panic(err)
+		}
+		files = append(files, file)
+	}
+	for _, pb := range batches {
+		for _, c := range pb.cases {
+			fmt.Fprintf(&script, "peer\t%s\t%d\t%d\n", c.name, c.reply, c.defect)
+		}
+	}
+	exitCode := 0
+	if args[3].i != 0 {
+		exitCode = 1
+	}
+	fmt.Fprintf(&script, "exit %d\n", exitCode)
+	scriptFile := filepath.Join(dir, "script")
+	if err := os.WriteFile(scriptFile, []byte(script.String()), 0o600); err != nil {
+		panic(err)
+	}
+	config := &conformancev1.Config{Features: &conformancev1.Features{
+		Versions:                    []conformancev1.HTTPVersion{conformancev1.HTTPVersion_HTTP_VERSION_1},
+		Protocols:                   []conformancev1.Protocol{conformancev1.Protocol_PROTOCOL_CONNECT, conformancev1.Protocol_PROTOCOL_GRPC_WEB},
+		Codecs:                      []conformancev1.Codec{conformancev1.Codec_CODEC_PROTO},
+		Compressions:                []conformancev1.Compression{conformancev1.Compression_COMPRESSION_IDENTITY},
+		StreamTypes:                 []conformancev1.StreamType{conformancev1.StreamType_STREAM_TYPE_UNARY},
+		SupportsH2C:                 proto.Bool(false),
+		SupportsTls:                 proto.Bool(false),
+		SupportsConnectGet:          proto.Bool(false),
+		SupportsMessageReceiveLimit: proto.Bool(false),
+	}}
+	cfgData, err := protojson.Marshal(config)
+	if err != nil {
+		panic(err)
+	}
+	cfgFile := filepath.Join(dir, "config.yaml")
+	if err := os.WriteFile(cfgFile, cfgData, 0o600); err != nil {
+		panic(err)
+	}
+	patterns := func(names []string) []string {
+		var out []string
+		seen := map[string]bool{}
+		for _, n := range names {
+			// the marked twin is covered by the pattern of the plain name
+			p := c04Pattern(strings.Replace(n, c04GRPCServerMarked, "/", 1))
+			if !seen[p] {
+				seen[p] = true
+				out = append(out, p)
+			}
+		}
+		return out
+	}
+	logPr, errPr := &c04Printer{}, &c04Printer{}
+	ok, err := Run(&Flags{
+		ConfigFile:           cfgFile,
+		TestFiles:            files,
+		KnownFailingPatterns: patterns(kf),
+		KnownFlakyPatterns:   patterns(kfl),
+		Verbose:              true, // server instances in sorted order
+		ClientCommand:        []string{os.Args[0], "-test.run=^TestVerifC04Child$", "c04:peerclient", scriptFile},
+		MaxServers:           1,
+		Parallelism:          1,
+		ServerBind:           "127.0.0.1",
+	}, logPr, errPr)
+	if err != nil {
+		return vL(vS("bad-case"), vS("run-returned-error"), vS(err.Error()))
+	}
+	rep := c04ParseReport(ok, logPr.take())
+	if len(rep.l) != 8 {
+		return rep
+	}
+	for _, i := range []int{6, 7} {
+		full := rep.l[i].strs()
+		for j := range full {
+			full[j] = c04ModelName(full[j])
+		}
+		rep.l[i] = vStrs(full)
+	}
+	status := 0
+	if !ok {
+		status = 1
+	}
+	return vL(vBool(ok), vInt(status), rep)
+}
+
+// c04PeerClient is the client under test of c04.peer (a child process).
+func c04PeerClient(script string) {
+	type entry struct{ reply, defect int64 }
+	entries := map[string]entry{}
+	exitCode := 0
+	for _, line := range strings.Split(script, "\n") {
+		f := strings.Split(line, "\t")
+		if len(f) == 4 && f[0] == "peer" {
+			var e entry
+			fmt.Sscanf(f[2], "%d", &e.reply)
+			fmt.Sscanf(f[3], "%d", &e.defect)
+			entries[f[1]] = e
+		} else if n, _ := fmt.Sscanf(line, "exit %d", &exitCode); n == 1 {
+			continue
+		}
+	}
+	httpClient := &http.Client{Timeout: 10 * time.Second, Transport: &http.Transport{DisableKeepAlives: true}}
+	for {
+		var req conformancev1.ClientCompatRequest
+		if err := internal.ReadDelimitedMessage(os.Stdin, &req, "runner", time.Minute, 1<<20); err != nil {
+			os.Exit(exitCode) // end of input
+		}
+		e, known := entries[c04ModelName(req.TestName)]
+		if !known {
+			os.Exit(4)
+		}
+		times := 1
+		if e.defect == 2 {
+			times = 2 // a second request for the same case
+		}
+		for k := 0; k < times; k++ {
+			contentType, body := "application/proto", []byte{}
+			if e.defect == 1 {
+				contentType, body = "application/json", []byte("{}")
+			}
+			encodingHeader := "Content-Encoding"
+			if req.Protocol == conformancev1.Protocol_PROTOCOL_GRPC_WEB {
+				contentType = "application/grpc-web+proto"
+				if e.defect == 1 {
+					contentType = "application/grpc-web+json"
+				}
+				body = append([]byte{0, 0, 0, 0, byte(len(body))}, body...)
+				encodingHeader = "Grpc-Encoding"
+			}
+			url := fmt.Sprintf("http://%s:%d/connectrpc.conformance.v1.ConformanceService/Unary", req.Host, req.Port)
+			httpReq, err := http.NewRequest(http.MethodPost, url, bytes.NewReader(body))
+			if err != nil {
+				os.Exit(5)
+			}
+			for _, hdr := range req.RequestHeaders {
+				for _, val := range hdr.Value {
+					httpReq.Header.Add(hdr.Name, val)
+				}
+			}
+			httpReq.Header.Set("Content-Type", contentType)
+			if req.Protocol == conformancev1.Protocol_PROTOCOL_CONNECT {
+				httpReq.Header.Set("Connect-Protocol-Version", "1")
+			}
+			if e.defect == 3 {
+				httpReq.Header.Set(encodingHeader, "gzip")
+			}
+			if httpResp, err := httpClient.Do(httpReq); err == nil {
+				_, _ = io.Copy(io.Discard, httpResp.Body)
+				_ = httpResp.Body.Close()
+			}
+		}
+		if resp := c04Reply(req.TestName, e.reply); resp != nil {
+			if err := internal.WriteDelimitedMessage(os.Stdout, resp); err != nil {
+				os.Exit(3)
+			}
+		}
+	}
 }
